@@ -37,6 +37,7 @@ type Model struct {
 	woUndef    bool
 	objFor     func(m *Model, clean string) (*roObj, bool, bool) // (object, handled, exists)
 	strictPath bool                                               // paths are well-formed absolute paths
+	lastEnd    int64                                              // end offset of the last data read (hidden cursors make it state)
 	roOptional bool                                               // ro may or may not be held by the server (after a fault)
 	pre        string                                             // kind of the target before the request (mutating ops)
 	files      map[string][]byte                                  // expected content of files uploaded in this session
@@ -241,6 +242,9 @@ func (m *Model) Check(req Req, resp []byte, closed bool) (why string, class stri
 }
 
 func (m *Model) check(req Req, resp []byte, closed bool) (why string, class string) {
+	if req.Raw == nil && (req.Op == opReadFile || req.Op == opReadFileCritical) {
+		m.lastEnd = int64(req.Off) + int64(req.Limit)
+	}
 	bad := func(f string, a ...any) (string, string) { return fmt.Sprintf(f, a...), "bad:" + slug(f) }
 	if req.Raw != nil {
 		// malformed / truncated / unknown: only ends the connection, no stray bytes
@@ -829,15 +833,22 @@ func (m *Model) check(req Req, resp []byte, closed bool) (why string, class stri
 	return "", "unknown-closed"
 }
 
-func dirSizeTruth(dir string) int64 {
+func dirSizeTruth(dir string) int64 { return dirSizeTruthDepth(dir, 0) }
+
+func dirSizeTruthDepth(dir string, depth int) int64 {
 	var total int64
 	filepath.Walk(dir, func(p string, fi os.FileInfo, err error) error {
 		if err != nil {
 			return nil
 		}
 		if fi.Mode()&os.ModeSymlink != 0 {
-			if t, e := os.Stat(p); e == nil && !t.IsDir() {
-				total += t.Size()
+			// operator-placed symlinks are followed by design
+			if t, e := os.Stat(p); e == nil {
+				if !t.IsDir() {
+					total += t.Size()
+				} else if depth < 8 {
+					total += dirSizeTruthDepth(p+"/", depth+1)
+				}
 			}
 			return nil
 		}
@@ -1009,7 +1020,7 @@ func (m *Model) AbstractKey() string {
 	default:
 		fmt.Fprintf(&b, ";ro:%s", m.ro.desc)
 	}
-	fmt.Fprintf(&b, ";wo:%s;opt:%v", m.wo, m.roOptional)
+	fmt.Fprintf(&b, ";wo:%s;opt:%v;cur:%d", m.wo, m.roOptional, m.lastEnd)
 	return b.String()
 }
 
